@@ -494,9 +494,19 @@ class Repo(object):
         if isinstance(expr, ast.Set):
             return set(f(e) for e in expr.elts)
         if isinstance(expr, ast.Dict):
-            if any(k is None for k in expr.keys):
-                raise Unfoldable('dict unpack')
-            return dict((f(k), f(v)) for k, v in zip(expr.keys, expr.values))
+            out = {}
+            for k, v in zip(expr.keys, expr.values):
+                if k is None:           # {**other, ...}
+                    sub = f(v)
+                    if not isinstance(sub, dict):
+                        raise Unfoldable('dict unpack of a non-dict')
+                    out.update(sub)
+                else:
+                    try:
+                        out[f(k)] = f(v)
+                    except TypeError as e:
+                        raise Unfoldable(str(e))
+            return out
         if isinstance(expr, ast.Name):
             if env and expr.id in env:
                 return env[expr.id]
@@ -615,8 +625,23 @@ class Repo(object):
                             'sorted': sorted, 'len': len, 'str': str}[fn.id](*args)
                 except Exception as e:
                     raise Unfoldable(str(e))
-            if isinstance(fn, ast.Name) and fn.id == 'dict' and not expr.args and all(k.arg for k in expr.keywords):
-                return dict((k.arg, f(k.value)) for k in expr.keywords)
+            if isinstance(fn, ast.Name) and fn.id == 'dict' and len(expr.args) <= 1 and expr.keywords:
+                # dict(a=1), dict(base, a=1), dict(base, **more)
+                try:
+                    out = dict(f(expr.args[0])) if expr.args else {}
+                except Unfoldable:
+                    raise
+                except Exception as e:
+                    raise Unfoldable(str(e))
+                for k in expr.keywords:
+                    if k.arg is None:
+                        sub = f(k.value)
+                        if not isinstance(sub, dict):
+                            raise Unfoldable('dict unpack of a non-dict')
+                        out.update(sub)
+                    else:
+                        out[k.arg] = f(k.value)
+                return out
             if isinstance(fn, ast.Name) and fn.id == 'zip' and not expr.keywords:
                 args = [f(a) for a in expr.args]
                 if any(isinstance(a, (set, frozenset, Sym)) for a in args):
